@@ -49,6 +49,25 @@ def one_case(arg):
                     G.Entry(G.GITLINK, namegen(rng) + b"g", "%040x" % 7), G.Entry(G.TREE, namegen(rng) + b"d", pool.new_tree(max_depth=3))])
         commits.append(G.Commit(t, commits[-1:], msg=b"x" * rng.choice([10, 3000]) + b"\n"))
         raw_refs = {}
+        if idx % 5 == 4:
+            # every cited metric is maximised by a different object: 10+ distinct footnotes in one table
+            specials = [
+                G.Tree([G.Entry(G.GITLINK, b"m%03d" % j, "%040x" % (j + 1)) for j in range(300)]),                     # entries + submodules
+                G.Tree([G.Entry(G.FILE, namegen(rng) + b"%d" % j, pool.new_blob(1)) for j in range(200)]),            # files
+                G.Tree([G.Entry(G.FILE, b"huge", pool.new_blob(200000))]),                                              # bytes + biggest blob
+                G.Tree([G.Entry(G.LINK, b"l%d" % j, pool.new_blob(2)) for j in range(100)]),                            # links
+                G.Tree([G.Entry(G.TREE, b"d%03d" % j, G.Tree([G.Entry(G.FILE, b"f", pool.new_blob(j + 2))])) for j in range(120)]),  # directories
+            ]
+            deep = G.Tree([G.Entry(G.FILE, b"x", pool.new_blob(3))])
+            for _ in range(40):
+                deep = G.Tree([G.Entry(G.TREE, b"q", deep)])
+            specials.append(deep)                                                                                      # depth
+            specials.append(G.Tree([G.Entry(G.TREE, b"L" * 150, G.Tree([G.Entry(G.FILE, b"N" * 200, pool.new_blob(4))]))]))   # length
+            roots_ = [G.Commit(tr, [], msg=b"s%d\n" % j) for j, tr in enumerate(specials)]
+            fat = G.Commit(G.Tree([]), [], msg=b"z" * 9000 + b"\n")                                                   # biggest commit
+            octo = G.Commit(G.Tree([]), roots_ + [fat], msg=b"octopus\n")                                             # most parents
+            commits = roots_ + [fat, octo]
+            raw_refs[b"refs/heads/octo"] = octo
         for i in range(rng.randint(1, 5)):
             raw_refs[hostile_refname(rng)] = rng.choice(commits)
         tg = G.Tag(commits[-1], name=b"t")
@@ -214,6 +233,8 @@ def run(chk, b, tier):
             chk.bump("generator_discards")
         if r["hostile"] and r["cites"] >= 2:
             chk.nontrivial(("case", i))
+        if r["cites"] >= 10:
+            chk.bump("tables_with_10_or_more_citations")
         if r["sample"]:
             profs[r["sample"]["profile"]] = profs.get(r["sample"]["profile"], 0) + 1
             chk.sample(r["sample"], limit=5)
